@@ -12,9 +12,11 @@ from spec import cisco_ref, sets
 SEEDS = {
     "ios": [["remark = H1", "permit tcp host 10.0.0.1 any eq 80 443", "permit tcp any any eq 80", "remark = H2", "deny ip any any log"],
             ["10 permit ip any any", "20 permit tcp any any eq 80", "30 deny udp any any eq 53"],
-            ["permit tcp any eq 1 2 any eq 3", "remark plain", "permit icmp any any", "permit icmp any any"]],
+            ["permit tcp any eq 1 2 any eq 3", "remark plain", "permit icmp any any", "permit icmp any any"],
+            ["permit icmp any any", "permit ip host 1.1.1.1 any", "remark = H1", "permit tcp any any eq 22", "remark = H2", "deny udp any any", "permit ip any host 2.2.2.2"]],
     "nxos": [["remark = H1", "permit tcp 10.0.0.1/32 any eq 80", "permit tcp any any eq 80", "remark = H2", "deny ip any any log"],
-             ["10 permit ip any any", "20 permit tcp any any eq 80", "30 deny udp any any eq 53"]],
+             ["10 permit ip any any", "20 permit tcp any any eq 80", "30 deny udp any any eq 53"],
+             ["permit icmp any any", "permit ip 1.1.1.1/32 any", "remark = H1", "permit tcp any any eq 22", "remark = H2", "deny udp any any", "permit ip any 2.2.2.2/32"]],
 }
 OPS = ["platform:ios", "platform:nxos", "port_nr:1", "port_nr:0", "protocol_nr:1", "protocol_nr:0", "resequence:10:10", "resequence:5:1", "resequence:0",
        "group", "ungroup", "sort", "reverse", "insert", "pop", "copy", "data", "reparse", "delete_shadow", "ungroup_ports"]
@@ -304,6 +306,12 @@ def main(chk):
             for k in range(1, n + 1):
                 for ops in itertools.product(OPS, repeat=k):
                     cases.append((platform, si, ops))
+    # order/structure operations: exhaustive to one step deeper (an effect that shows only two steps later, e.g. reverse twice)
+    STRUCT = ["group", "ungroup", "reverse", "insert", "pop", "sort", "copy"]
+    for platform in ("ios", "nxos"):
+        for si in (0, len(SEEDS[platform]) - 1):
+            for ops in itertools.product(STRUCT, repeat=n + 1):
+                cases.append((platform, si, ops))
     rnd = random.Random(chk.seed)
     for _ in range(1500 if chk.tier == "quick" else 20000):
         platform = rnd.choice(["ios", "nxos"])
@@ -319,7 +327,8 @@ def main(chk):
             seen.add(f["key"])
             chk.finding(f["key"], f["what"], inputs=f["inputs"], cmd=f.get("cmd"), key=f["key"])
     chk.add_bounded("sequences of public operations: after every step the text re-parses to itself and denotes the rule list of the reference model", len(cases), len(cases),
-                    f"all sequences of <= {n} operations over an alphabet of {len(OPS)} (with arguments) from {sum(len(v) for v in SEEDS.values())} seed ACLs, plus seeded random "
+                    f"all sequences of <= {n} operations over an alphabet of {len(OPS)} (with arguments) from {sum(len(v) for v in SEEDS.values())} seed ACLs, all sequences of {n + 1} order/structure operations "
+                    "(group, ungroup, reverse, insert, pop, sort, copy) from the ACLs with headings, plus seeded random "
                     "sequences of 3..8 operations", viol, time.time() - t0, [list(cases[321][2])], exhaustive=False)
     chk.assumptions += ["the inductive argument (every operation satisfies its model from every consistent state => every history does) is checked only on the enumerated "
                         "states; whole-history properties are outside contract-based deduction", "the memo part of the consistency invariant is proved in C05"]
